@@ -104,8 +104,8 @@ func writeForeignTar(ms []member, format tar.Format, style string, mtime time.Ti
 func init() {
 	Register(&Check{
 		ID: "C17", Level: "exploration", Tech: "deterministic simulation: a second, independent writer (archive/tar) produces the medium; the documented composition is opened over it on the simulated drive, followed by further calls and a rebuild restart",
-		Rule:      "generated directory trees (depth <= 4, 1-10 members, names up to 120 bytes incl. spaces/dots/non-ASCII, contents 0..11000 bytes) are written by archive/tar as USTAR, PAX or GNU archives in three root styles ('./', '/', named top directory) and placed on the simulated drive; NewSTFS + Initialize + cache.NewCacheFilesystem(stfs, root, none) at every record size; oracle: every member is listed under its directory exactly once with the right kind, every regular member reads back byte-identical, Stat of '/p', 'p' and './p' agree, then files and directories are added through the filesystem, coexist with the original members and the whole tree survives an index rebuild; non-trivial = at least 3 members incl. a nested one; distinct by (format, style, record size, tree shape)",
-		QuickRuns: 4000, QuickSecs: 60, ThoroughRuns: 15000, ThoroughSecs: 1500,
+		Rule:      "generated directory trees (depth <= 4, 1-10 members, names up to 120 bytes incl. spaces/dots/non-ASCII, contents 0..11000 bytes) are written by archive/tar as USTAR, PAX or GNU archives in three root styles ('./', '/', named top directory) and placed on the simulated drive; NewSTFS + Initialize + cache.NewCacheFilesystem(stfs, root, none) at every record size; oracle: every member is listed under its directory exactly once with the right kind, every regular member reads back byte-identical, Stat of '/p', 'p' and './p' agree, then (half of the runs) original members are removed, removed recursively, renamed and chmod-ed, files and directories are added through the filesystem, coexist with the original members and the whole tree survives an index rebuild; non-trivial = at least 3 members incl. a nested one; distinct by (format, style, record size, tree shape)",
+		QuickRuns: 8000, QuickSecs: 60, ThoroughRuns: 15000, ThoroughSecs: 1500,
 		Assumptions: []string{"the archive contains an entry for its top-level directory (as the property states)", "plain pipeline (a foreign archive is neither compressed, encrypted nor signed by STFS)"},
 		Gen: func(r *rand.Rand, tier string, relax Relax) *Case {
 			c := &Case{Cfg: PlainConfig(recordSizes[r.IntN(len(recordSizes))]), P: map[string]int64{}, S: map[string]string{}}
@@ -113,6 +113,9 @@ func init() {
 			c.S["style"] = []string{"dot", "abs", "top"}[r.IntN(3)]
 			c.P["treeseed"] = int64(r.Uint32())
 			c.P["writes"] = int64(r.IntN(4))
+			if r.IntN(2) == 0 {
+				c.P["mods"] = int64(1 + r.IntN(15))
+			}
 			return c
 		},
 		Eval: evalC17,
@@ -228,9 +231,81 @@ func evalC17(t *testing.T, c *Case, st *Stats, relax Relax) *Violation {
 		if v := check(fsys, nil, "open"); v != nil {
 			return v
 		}
+		// further calls on ORIGINAL members: remove a file, remove a directory tree, rename and
+		// chmod a file; each must succeed and the tree must reflect it (live and after the rebuild)
+		ex := NewExec(fsys, x.S)
+		if mods := int(c.Param("mods", 0)); mods != 0 {
+			pickMember := func(dir bool) int {
+				var idx []int
+				for i, m := range ms {
+					if m.Path != "" && m.Dir == dir {
+						idx = append(idx, i)
+					}
+				}
+				if len(idx) == 0 {
+					return -1
+				}
+				return idx[tr.IntN(len(idx))]
+			}
+			var did []string
+			if mods&1 != 0 {
+				if i := pickMember(false); i >= 0 {
+					p := path.Clean("/" + ms[i].Path)
+					if r := ex.Do(Op{K: "remove", P: p}); r.Class != "ok" {
+						return mk("member-call-fails", fmt.Sprintf("remove %q: %s %s", p, r.Class, r.Err))
+					}
+					ms = append(ms[:i:i], ms[i+1:]...)
+					did = append(did, "remove "+p)
+				}
+			}
+			if mods&2 != 0 {
+				if i := pickMember(true); i >= 0 {
+					p := path.Clean("/" + ms[i].Path)
+					if r := ex.Do(Op{K: "removeall", P: p}); r.Class != "ok" {
+						return mk("member-call-fails", fmt.Sprintf("removeall %q: %s %s", p, r.Class, r.Err))
+					}
+					var keep []member
+					for _, m := range ms {
+						q := path.Clean("/" + m.Path)
+						if q == p || strings.HasPrefix(q, p+"/") {
+							continue
+						}
+						keep = append(keep, m)
+					}
+					ms = keep
+					did = append(did, "removeall "+p)
+				}
+			}
+			if mods&4 != 0 {
+				if i := pickMember(false); i >= 0 {
+					p := path.Clean("/" + ms[i].Path)
+					q := path.Join(path.Dir(p), "renamed-member")
+					if r := ex.Do(Op{K: "rename", P: p, Q: q}); r.Class != "ok" {
+						return mk("member-call-fails", fmt.Sprintf("rename %q %q: %s %s", p, q, r.Class, r.Err))
+					}
+					ms[i].Path = strings.TrimPrefix(q, "/")
+					did = append(did, "rename "+p)
+				}
+			}
+			if mods&8 != 0 {
+				if i := pickMember(false); i >= 0 {
+					p := path.Clean("/" + ms[i].Path)
+					if r := ex.Do(Op{K: "chmod", P: p, M: 0o600}); r.Class != "ok" {
+						return mk("member-call-fails", fmt.Sprintf("chmod %q: %s %s", p, r.Class, r.Err))
+					}
+					did = append(did, "chmod "+p)
+				}
+			}
+			if len(did) > 0 {
+				st.Add("calls_on_original_members", int64(len(did)))
+				where += "; then " + strings.Join(did, ", ")
+				if v := check(fsys, nil, "after-member-calls"); v != nil {
+					return v
+				}
+			}
+		}
 		// add entries through the filesystem
 		extra := map[string][]byte{}
-		ex := NewExec(fsys, x.S)
 		nw := int(c.Param("writes", 0))
 		for i := 0; i < nw; i++ {
 			par := "/"
